@@ -84,6 +84,8 @@ class Reporter:
         ev_dir.mkdir(exist_ok=True)
         vio_path = ev_dir / ('%s.violations.json' % self.prop)
         if viol:
+            if self.root != '/repo':
+                vio_path = pathlib.Path('/tmp') / ('%s.%d.violations.json' % (self.prop, os.getpid()))
             vio_path.write_text(json.dumps({'property': self.prop, 'root': self.root, 'violations': viol}, indent=1))
             for f in viol:
                 print('  %s %s: %s' % (f['key'], f['where'], f['message']))
